@@ -47,6 +47,10 @@ fn repair_and_check<K: Kernel<D, Scalar = f64>, const D: usize>(rep: &Report, cn
             let out = model::apply(&mut dt, &op, &[]);
             let secs = t0.elapsed().as_secs_f64();
             rep.outcome(&format!("{:?}:{}", op, out.class()));
+            if matches!(&out, Outcome::Err { class, .. } if class.contains("PostconditionFailed") || class.contains("NonConvergent")) {
+                // where the repair ladder gives up: these start states exercise its last rungs
+                rep.outcome(&format!("gave_up:D{D}:{family}:n={}:{start_kind}:{kname}", pts.len()));
+            }
             let replay = || json!({"D": D, "kernel": kname, "family": family, "start": start_kind, "points": pts.iter().map(|p| p.to_vec()).collect::<Vec<_>>(), "start_cells": corpus::cells_as_indices(&start_snap, pts), "guarantee": format!("{:?}", model::tg_of(tg)), "op": op, "flip_distance": dist});
             let sig = |check: &str, extra: Value| json!({"check": check, "op": format!("{op:?}"), "D": D, "family": family, "start": start_kind, "detail": extra});
             if secs > 60.0 {
